@@ -470,7 +470,7 @@ func Run(c *vl.Ctx) {
 	if c.Quick() {
 		c.SetBudget(time.Since(c.Start) + 90*time.Second)
 	} else {
-		c.SetBudget(time.Since(c.Start) + 18*time.Minute)
+		c.SetBudget(time.Since(c.Start) + 13*time.Minute)
 	}
 	t := &tally{incomplete: []string{}, graphsDone: map[int]int{}, reported: map[string]bool{}}
 
